@@ -92,6 +92,21 @@ impl Peer {
         pieces_status: &mut Vec<Status>,
         metainfo: &Metainfo,
     ) -> UnchokeCmd {
+        // Peer repeats Unchoke while a piece is assigned: give the old reservation back, new piece
+        // (or none) is assigned below
+        if !self.choked {
+            if let Some(piece_index) = self.piece_index {
+                pieces_status[piece_index] = match pieces_status[piece_index] {
+                    Status::Reserved(peers_count) => match peers_count >= 2 {
+                        true => Status::Reserved(peers_count - 1),
+                        false => Status::Missing,
+                    },
+                    Status::Missing => Status::Missing,
+                    Status::Have => Status::Have,
+                }
+            }
+        }
+
         let cmd = match chosen_index {
             Some(chosen_index) => {
                 pieces_status[chosen_index] = match pieces_status[chosen_index] {
@@ -216,6 +231,11 @@ impl Peer {
         metainfo: &Metainfo,
     ) -> PieceCmd {
         match chosen_index {
+            // Nothing can be requested while peer chokes us, piece will be chosen again after Unchoke
+            Some(_) if self.choked => {
+                self.piece_index = None;
+                PieceCmd::Ignore
+            }
             Some(chosen_index) => {
                 pieces_status[chosen_index] = match pieces_status[chosen_index] {
                     Status::Reserved(peers_count) => Status::Reserved(peers_count + 1),
@@ -224,10 +244,7 @@ impl Peer {
                 };
 
                 self.piece_index = Some(chosen_index);
-                match self.choked {
-                    true => PieceCmd::Ignore,
-                    false => PieceCmd::SendRequest(req_data(&metainfo, chosen_index)),
-                }
+                PieceCmd::SendRequest(req_data(&metainfo, chosen_index))
             }
             None => {
                 self.piece_index = None;
